@@ -389,3 +389,80 @@ func VerifC05_Merge_IrregularLists() {
 		rt.Assert(res != nil, "irregular/neither-value-nor-error")
 	}
 }
+
+// VerifC05_Merge_ListOrder: the order clause for name-keyed lists - surviving
+// observed entries keep their order, entries that are new come after them in
+// the order of the desired list - with Go's map iteration order as a symbolic
+// dimension (a rebuild that walks a map instead of the desired slice yields
+// the right SET in the wrong ORDER only under some iteration orders). The
+// names are symbolic (pairwise different), the number of observed and desired
+// entries is drawn, the merge key is `name` or `port`.
+func VerifC05_Merge_ListOrder() {
+	if rt.Bool("maps-reversed") {
+		rt.ReverseMaps(true)
+	}
+	key := "name"
+	if rt.Bool("keyed-by-port") {
+		key = "port"
+	}
+	nObs := rt.Choice("observed-entries", 3)   // 0..2
+	nDes := 2 + rt.Choice("desired-entries", 2) // 2..3
+	var names []string
+	fresh := func(tag string) string {
+		s := rt.String(tag)
+		for _, o := range names {
+			rt.Assume(s != o)
+		}
+		names = append(names, s)
+		return s
+	}
+	var obsL, desL []interface{}
+	var obsNames []string
+	for i := 0; i < nObs; i++ {
+		n := fresh("o" + string(rune('0'+i)))
+		obsNames = append(obsNames, n)
+		obsL = append(obsL, map[string]interface{}{key: n, "v": "old"})
+	}
+	// desired: optionally keeps the observed entries (in reverse order, to tell
+	// "observed order wins" from "desired order wins"), then the new ones
+	keep := nObs > 0 && rt.Bool("desired-keeps-the-observed-entries")
+	var want []string
+	if keep {
+		for i := nObs - 1; i >= 0; i-- {
+			desL = append(desL, map[string]interface{}{key: obsNames[i], "v": "new"})
+		}
+	}
+	// observed entries survive either way: they are in desired, or they were never applied by us
+	want = append(want, obsNames...)
+	for i := 0; i < nDes; i++ {
+		n := fresh("d" + string(rune('0'+i)))
+		desL = append(desL, map[string]interface{}{key: n, "v": "new"})
+		want = append(want, n)
+	}
+	obs := map[string]interface{}{"a": obsL}
+	if nObs == 0 && rt.Bool("observed-field-absent") {
+		obs = map[string]interface{}{}
+	}
+	des := map[string]interface{}{"a": desL}
+	res, err := Merge(obs, nil, des)
+	rt.Assert(err == nil, "list-order/unexpected-error")
+	if err != nil {
+		return
+	}
+	rl, ok := res["a"].([]interface{})
+	rt.Assert(ok && len(rl) == len(want), "list-order/length")
+	if !ok || len(rl) != len(want) {
+		return
+	}
+	rt.Cover("list-order/merged")
+	for i, n := range want {
+		m, isMap := rl[i].(map[string]interface{})
+		rt.Assert(isMap && verifKeyString(m[key]) == n, "list-order/entry-out-of-order")
+	}
+	// and the same input gives the same output (determinism)
+	res2, err2 := Merge(obs, nil, des)
+	rt.Assert(err2 == nil, "list-order/second-run-error")
+	if err2 == nil {
+		gen.Equal(res2, res, "list-order/not-deterministic")
+	}
+}
